@@ -176,6 +176,8 @@ def _loop_carried(phi):
 class Model:
     def __init__(self, fx, config="default"):
         self.fx = fx
+        if "utils::SALTS" in getattr(fx, "statics", {}):
+            config = "mock_salts"   # whatever the caller believes: these are the facts of the deterministic-salt build
         self.config = config
         self.ctors = []        # [(fn, struct aggregate node)]
         self.forms = []        # [(ctor fn, term)] one per feasible combination of merges
